@@ -49,6 +49,7 @@ func init() {
 		Compare:    cmpC10,
 		Shrink:     shrinkC10,
 		Workers:    8,
+		TimeoutMs:  120000, // a hang is an observation ({"hang":true}), not the end of the run
 		Assumptions: []string{
 			"inputs are well-formed Go values of the API's types (http.NewRequest succeeds); only document content and traffic are hostile",
 			"documents that fail to load or validate are outside the property (observed as invalid-doc, counted, never compared)",
@@ -79,10 +80,10 @@ func runC10InProcess(c hx.Case) any {
 	case "server":
 		return c10RunServer(c)
 	case "schema":
-		debug.SetMaxStack(64 << 20) // a cycle overflows quickly instead of eating 1 GB first
+		debug.SetMaxStack(16 << 20) // a cycle overflows quickly instead of eating 1 GB first
 		return c10RunSchema(c)
 	case "traffic":
-		debug.SetMaxStack(64 << 20)
+		debug.SetMaxStack(32 << 20)
 		return c10RunTraffic(c)
 	}
 	return map[string]any{"kind": "bad-case"}
@@ -697,7 +698,7 @@ func genC10(ctx *hx.Ctx, emit func(hx.Case)) {
 		emit(hx.Case{"op": "schema", "defs": defs, "root": c10RandSchema(r, n, 2, false), "value": c10RandValue(r, 3)})
 	}
 	// ---- traffic
-	n := 6000
+	n := 5000
 	if ctx.Thorough() {
 		n = 60000
 	}
@@ -1247,6 +1248,12 @@ func shrinkC10(c hx.Case) []hx.Case {
 		}
 		if len(out) > 400 {
 			break
+		}
+	}
+	// keep the model's view of the URL (rawURL) in step with the fields the request is built from
+	for _, d := range out {
+		if rq, ok := d["req"].(map[string]any); ok {
+			rq["rawURL"] = (&url.URL{Scheme: jstr(rq, "scheme"), Host: jstr(rq, "host"), Path: jstr(rq, "path")}).String()
 		}
 	}
 	return out
